@@ -413,6 +413,8 @@ func ruleReporterSinks(c *core.Ctx, rule string) {
 			pos := c.P.Pos(st.Field(i).Pos())
 			if why, ok := okTypes[ft.String()]; ok {
 				c.Discharge(rule, name, "sink "+st.Field(i).Name(), pos, ft.String()+": "+why)
+			} else if wrapsOnly(ft, okTypes, 0) {
+				c.Discharge(rule, name, "sink "+st.Field(i).Name(), pos, ft.String()+": a repository wrapper whose own sinks are pass-through writers")
 			} else {
 				c.Violate(rule, name, "sink "+st.Field(i).Name(), pos, "the reporter writes its rows to a "+ft.String()+": a writer that keeps rows until it is flushed and lays them out together makes what is printed for one day depend on the other days", nil)
 			}
@@ -446,4 +448,35 @@ func isWriterType(t types.Type) bool {
 		}
 	}
 	return false
+}
+
+// wrapsOnly: t is a struct type of the repository (or a pointer to one) whose
+// writer-typed fields are all pass-through writers themselves.
+func wrapsOnly(t types.Type, okTypes map[string]string, depth int) bool {
+	if depth > 3 {
+		return false
+	}
+	if pt, ok := t.(*types.Pointer); ok {
+		t = pt.Elem()
+	}
+	named, ok := t.(*types.Named)
+	if !ok || named.Obj().Pkg() == nil || !(strings.HasPrefix(named.Obj().Pkg().Path(), core.CmdPath) || strings.HasPrefix(named.Obj().Pkg().Path(), core.LibPath)) {
+		return false
+	}
+	st, ok := named.Underlying().(*types.Struct)
+	if !ok {
+		return false
+	}
+	seen := false
+	for i := 0; i < st.NumFields(); i++ {
+		ft := st.Field(i).Type()
+		if !isWriterType(ft) {
+			continue
+		}
+		seen = true
+		if _, ok := okTypes[ft.String()]; !ok && !wrapsOnly(ft, okTypes, depth+1) {
+			return false
+		}
+	}
+	return seen
 }
